@@ -164,8 +164,8 @@ class C07(PropertyCheck):
         # hash instead of the text itself hands back the older one (seeded change C07-10); as messages of one key and as keys
         import fxpairs
         for (x, y) in fxpairs.ALL_PAIRS:
-            for (u, v) in ((x, y), (y, x), (x + "_cl0n", y + "_cl0n")):
-                mu, mv = tuple(map(ord, u)), tuple(map(ord, v))
+            for (u, v) in ((x, y), (y, x), (x + b"_cl0n", y + b"_cl0n")):
+                mu, mv = tuple(u), tuple(v)
                 cases.append(Case(render([("S", ka, mu), ("G", ka), ("S", ka, mv), ("G", ka), ("R", ka), ("G", ka)]), "fingerprint-collision"))
                 cases.append(Case(render([("S", ka, mu), ("G", ka), ("D", ka), ("S", ka, mv), ("G", ka)]), "fingerprint-collision"))
                 cases.append(Case(render([("S", mu, (X,)), ("S", mv, (BS, LN)), ("G", mu), ("G", mv), ("D", mu), ("H", mv), ("G", mv)]), "fingerprint-collision"))
